@@ -1219,6 +1219,12 @@ namespace rvutils::pbo
             {
                 m_headers.push_back(*opt_header);
             }
+            if (!opt_header.has_value())
+            { // the file ended before the terminating (empty) header
+                m_headers.clear();
+                m_good = false;
+                return;
+            }
             m_headers.push_back(*opt_header);
 #if _DEBUG
             DBG_POS = file.tellg();
@@ -1226,12 +1232,20 @@ namespace rvutils::pbo
 
 
             auto offset = file.tellg();
+            file.seekg(0, std::ios::end);
+            auto file_end = file.tellg();
             // Add data-sections to headers
             for (auto &it : m_headers)
             {
                 it.block_data.start = offset;
                 offset += it.size;
                 it.block_data.end = offset;
+            }
+            if (offset > file_end)
+            { // the headers promise more data than the file holds (truncated or corrupted archive)
+                m_headers.clear();
+                m_good = false;
+                return;
             }
 
             // All fine here, end processing.
